@@ -29,6 +29,56 @@ fn audit(src: &str, budget: u64) -> (Obs, Option<(String, String)>) {
     (o, f)
 }
 
+/// Heaps that are large in one dimension: tens of thousands of objects alive at a collection, with garbage among them, in
+/// lists, in wide arrays, as floats and texts; the ledger must balance as for every other run (every object released
+/// exactly once, the value intact). A collection runs at every function return.
+fn large_heap_programs() -> Vec<(String, String, i64)> {
+    let mut v = Vec::new();
+    for n in [1_000i64, 40_000, 70_000] {
+        // a chain of [float, rest] pairs (2 n objects), a collection while it is alive, a walk over it, another collection
+        v.push((
+            format!("chain:{n}"),
+            format!("functie f() {{ [1.5, \"afval\"] }} stel l = []; stel i = 0; zolang i < {n} {{ l = [float(i) + 0.5, l]; i = i + 1 }}; f(); stel k = 0; zolang lengte(l) > 0 {{ als l[0] >= 0.0 {{ k = k + 1 }}; l = l[1] }}; f(); k"),
+            n,
+        ));
+        // texts kept in a list that is rebuilt again and again (garbage), then counted
+        v.push((
+            format!("texts:{n}"),
+            format!("functie f(x) {{ string(x) }} stel l = []; stel i = 0; zolang i < {n} {{ l = [string(i), l]; i = i + 1 }}; stel g = f(1); stel k = 0; zolang lengte(l) > 0 {{ k = k + lengte(l[0]) - lengte(l[0]) + 1; l = l[1] }}; f(2); k"),
+            n,
+        ));
+        // everything garbage at once
+        v.push((
+            format!("all-garbage:{n}"),
+            format!("functie f() {{ 0 }} stel l = []; stel i = 0; zolang i < {n} {{ l = [[i], l]; i = i + 1 }}; l = 0; f(); f() + {n}"),
+            n,
+        ));
+    }
+    v
+}
+
+fn large_heap_family(rep: &mut Report) {
+    for (name, src, want) in large_heap_programs() {
+        rep.eval();
+        rep.count("large-heaps");
+        rep.nontrivial(&name);
+        let (o, f) = audit(&src, 80_000_000);
+        let wrong_value = !matches!(&o.outcome, Outcome::Value(Val::Int(i)) if *i == want) && o.outcome != Outcome::Budget;
+        let f = f.or(if wrong_value { Some(("large-heap:wrong-value".to_string(), o.render().chars().take(300).collect())) } else { None });
+        if let Some((class, detail)) = f {
+            rep.violation(Violation {
+                property: "C04".into(),
+                driver: "large-heaps".into(),
+                class,
+                case: json!({"src": src, "family": name}),
+                expected: format!("value {want}; every object released exactly once"),
+                observed: detail.chars().take(600).collect(),
+            });
+        }
+    }
+    rep.sample(json!({"large-heap": large_heap_programs()[1].1}));
+}
+
 pub struct ProgStats {
     pub instrs: u64,
     pub allocated: usize,
@@ -153,6 +203,7 @@ pub fn run_check(ctx: &Ctx) -> Report {
         "programs of the `alloc` profile; each is run to completion under the shadow heap and then cut short with an injected error after k instructions for EVERY k below the length of the run (runs longer than 3000 instructions: the first 1000 and 1000 evenly spread others). \
          After each run the ledger is audited: the result graph must be live when returned, releasing it (each distinct object once) must leave no live block, no block may be freed twice; at the end of every collection the managed set must contain nothing unreachable. \
          Plus generated sessions (C17's generator) on one retained compiler and machine, with the ledger audited over the whole life of the machine: no line meets a released block, dropping machine and compiler leaves only what the handed-over results reach, the caller releases that exactly once. \
+         Plus nine programs with 1 000 ... 140 000 objects alive at a collection (chains of pairs, texts, everything garbage at once) under the same ledger. \
          Plus the collector histories of C03 with the stronger oracle (garbage is actually freed by the cycle). \
          non-trivial = program that allocated >=3 heap objects and whose cycles freed something; abort points with >=1 object allocated are counted; distinct by program text",
     );
@@ -165,6 +216,8 @@ pub fn run_check(ctx: &Ctx) -> Report {
     let shards = ctx.shards;
     let enum_len = ctx.pick(4usize, 5usize);
     let limit = 3000u64;
+    crate::engine::note_current("done", "");
+    large_heap_family(&mut rep);
     par_shards(ctx.shards, rep, move |shard, r| {
         let known = load_known_findings();
         let profile = Profile::alloc();
